@@ -48,7 +48,7 @@ claim("C10", "other",
 
 claim("C04", "other",
   "Error discipline decided over every return and every call of the single validity oracle: who may call the scanner/parser (V1), error implies zero result at every return in every analysed context (V2, abstract interpreter), no parse error dropped (V3), the origins of every error an entry point can return are exactly the specified ones (V4), ValidateLicenses is an in-order filter by 'parse fails' (V5), compound allowed entries are rejected before use (V6), no entry point can report success before parse accepted its expression argument (V7).",
-  "That parse's accept/reject decision is the SPDX grammar is C05; determinism is C13. V4 compares error origins and their guards with the specified set, so a new legitimate error condition must be added to the specification table in rules_c04.go.",
+  "That parse's accept/reject decision is the SPDX grammar is C05; determinism is C13. V4 compares error origins and their guards with the specified set (helpers expanded down to parse; guards that only say an earlier check did not fire are ignored: which of two errors wins on doubly invalid input is not part of the property), so a new legitimate error condition must be added to the specification table in rules_c04.go.",
   "call-graph who-may-call + abstract interpretation of result tuples + error provenance", "DESIGN.md section 3 C04")
 
 claim("C05", "other",
